@@ -674,7 +674,12 @@ class Interp:
             if op["codec"] in ("json", "composite"):
                 from sim.clauses_c13 import render_class
 
-                blob["text_class"] = render_class(self, x.unit)
+                # harness-side classification: must not be hit (and swallowed) by an armed injection
+                inj, self._inj = self._inj, None
+                try:
+                    blob["text_class"] = render_class(self, x.unit)
+                finally:
+                    self._inj = inj
         return "blob", blob, mx, {"codec": op["codec"]}
 
     def op_load(self, op, prepare, prepared=None):
